@@ -193,6 +193,9 @@ SPECIAL = [
     # plain / branches / rings / many closures
     'C', 'CC', 'CCO', 'CC(C)C', 'CC(C)(C)C', 'C1CC1', 'C1CC1C', 'C12C3C4C1C5C2C3C45', 'C1CC2CCC1CC2', 'C1CCC2(CC1)CCCC2',
     'C1CC2C3CCC(C3)C2C1', 'c1ccc2c(c1)ccc1ccccc12', 'C1=CC2=CC=CC2=C1',
+    # more than nine ring closures open at the same time (%nn numbers), spiro chains (numbers released and reused)
+    'C1C2C3C4C5C6C7C8C9C%10C%11C%12C%12C%11C%10C9C8C7C6C5C4C3C2C1', 'C1CC11CC11CC11CC1', 'C1CC12CC23CC3CC2C1',
+    'C1CC1C1CC1C1CC1', 'C12(CC1)CC2',
     # brackets: isotopes, charges, radicals, H counts, elemental / special atoms
     '[13CH4]', '[2H]O[2H]', '[H][H]', '[H+]', '[NH4+]', '[O-]C(=O)c1ccccc1', 'C[N+](C)(C)C', '[Fe+2]', '[Fe+3].[Cl-].[Cl-].[Cl-]',
     '[O-2].[Mg+2]', '[C-]#[O+]', '[CH3]', '[CH2]C', 'C[CH]C', '[O]O', '[OH]', 'C[N]C', '[C]', '[P]', '[S]', '[B]', '[PH3]', 'P',
@@ -998,8 +1001,9 @@ def known_probes(ck):
     roundtrip(ck, 'api:atom-number-10000', m, '', 0)
 
 
-def directed_search(ck, bad_writer, bad_reader):
-    """a correspondence broke: property-level oracle on and around the disagreeing inputs"""
+def directed_search(ck, bad_writer, bad_reader, mols):
+    """a theorem or a correspondence broke: property-level oracle on and around the disagreeing inputs (when there are none:
+    a table theorem broke: the special molecules, which exercise every table entry, in every style and more random orders)"""
     from chython import smiles
     rng = random.Random(f'{ck.seed}:c02directed')
     found = 0
@@ -1023,6 +1027,8 @@ def directed_search(ck, bad_writer, bad_reader):
             continue
         if m is not None and len(m):
             around.append((s if kind == 'tokenize' else f'[{s}]', m))
+    if not around:
+        around = [x for x in mols if x[0] in SPECIAL_SET]
     found += search_roundtrip(ck, around, n_random=12, full=True)
     found += search_stereoisomers(ck, [x for x in around if sum(n_labels(x[1])) > 0], max_labels=7)
     return found
@@ -1066,8 +1072,10 @@ def run(ck):
     found = search(ck, mols)
     tm['search'] = round(time.time() - t0, 1)
     ck.extra['timing_s'] = tm
-    if not (tied_w and tied_r):
-        found += directed_search(ck, bad_w, bad_r)
+    if not (proved and tied_w and tied_r):
+        t0 = time.time()
+        found += directed_search(ck, bad_w, bad_r, mols)
+        tm['directed_search'] = round(time.time() - t0, 1)
     ck.extra['proved'] = proved
     ck.extra['tied'] = bool(tied_w and tied_r)
     ck.extra['search_counterexamples'] = found
